@@ -1,4 +1,110 @@
-def contracts(reg, ctx):
-    return []
+"""C08 — SQLiteBroker glue obligations (statement order, bound parameters, ownership)."""
+from __future__ import annotations
+
+import z3
+
+from pyvc import sqlmodel
+from pyvc.contract import Case, Contract, Registry, Shape
+from pyvc.sqlmodel import all_events, sql_events
+from pyvc.types import BOOL, INT, REAL, STR, ObjT, Opt
+from pyvc.values import OK, NoneVal, Val
+
+from .common import ID
+
+SB = "pynenc.broker.sqlite_broker"
+OID = Opt(ID)
+SCHEMA = {"id": (INT, None), "invocation_id": (ID, None), "created_at": (REAL, None)}
+QUEUE = "{self.tables.QUEUE}"
+
+
+def T(b):
+    return z3.BoolVal(bool(b))
+
+
+def identity_ctor(reg: Registry, key: str):
+    reg.add(Contract(key=key, handler=lambda eng, st, recv, args, kwargs: [(OK, st, args[0])], assumed=True,
+                     note="typing.NewType constructor: identity"))
+
+
+def contracts(reg: Registry, ctx):
+    sqlmodel.install(reg, SCHEMA)
+    identity_ctor(reg, "pynenc.identifiers.invocation_id:InvocationId")
+    reg.add_shape(Shape("Tables", fields={}))
+    reg.add_shape(Shape("SQLiteBroker", fields={"sqlite_db_path": STR, "tables": ObjT("Tables"), "app": ObjT("App")},
+                        cls=(SB, "SQLiteBroker")))
+
+    def stmts(c):
+        return sql_events(c.st)
+
+    def first_is_begin_immediate(c):
+        s = stmts(c)
+        return T(bool(s) and s[0]["kind"] == "BEGIN IMMEDIATE")
+
+    def reads_and_writes_owned(c):
+        return T(all(e["owned"] for e in stmts(c) if e["kind"] in ("SELECT", "DELETE", "UPDATE", "INSERT")))
+
+    def one_connection(c):
+        return T(len({e["conn"] for e in stmts(c)}) == 1)
+
+    def select_oldest(c):
+        sel = [e for e in stmts(c) if e["kind"] == "SELECT"]
+        ok = len(sel) == 1 and sel[0]["table"] == QUEUE and (sel[0]["info"]["order_by"] or "").upper().replace("  ", " ") in ("CREATED_AT ASC", "CREATED_AT", "CREATED_AT ASC, ID ASC", "CREATED_AT, ID", "ID ASC", "ID") \
+            and sel[0]["info"]["limit"] == "1" and set(sel[0]["info"]["columns"]) >= {"id", "invocation_id"}
+        return T(ok)
+
+    def row_of(c):
+        sel = [e for e in stmts(c) if e["kind"] == "SELECT"]
+        return sel[0].get("row") if sel else None
+
+    def empty_case(c):
+        if row_of(c) is not None:
+            return T(True)
+        no_delete = not [e for e in stmts(c) if e["kind"] == "DELETE"]
+        return z3.And(T(no_delete), OID.is_none(c.result))
+
+    def row_case(c):
+        row = row_of(c)
+        if row is None:
+            return T(True)
+        dels = [e for e in stmts(c) if e["kind"] == "DELETE"]
+        if len(dels) != 1 or dels[0]["table"] != QUEUE or dels[0]["info"]["where"] != ["id"] or len(dels[0]["params"]) != 1:
+            return T(False)
+        evs = all_events(c.st)
+        idx_del = max(i for i, e in enumerate(evs) if e.get("ev") == "sql" and e["kind"] == "DELETE")
+        committed = any(e.get("ev") == "commit" for e in evs[idx_del:])
+        p = dels[0]["params"][0]
+        return z3.And(T(committed), p.term == row["id"].term if isinstance(p, Val) and p.ty == INT else T(False),
+                      c.result == OID.some(row["invocation_id"].term))
+
+    retrieve = Contract(
+        key=f"{SB}:SQLiteBroker.retrieve_invocation", shape="SQLiteBroker", params={}, result=OID, frame=[],
+        cases=[Case("select-oldest-then-delete-it", ensures=[
+            ("ownership:BEGIN-IMMEDIATE-is-the-first-statement", first_is_begin_immediate),
+            ("ownership:select-and-delete-inside-the-transaction", reads_and_writes_owned),
+            ("ownership:one-connection", one_connection),
+            ("selects-the-oldest-row-limit-1", select_oldest),
+            ("no-row:returns-None-and-deletes-nothing", empty_case),
+            ("row:deletes-exactly-the-selected-message-id-commits-returns-its-invocation-id", row_case),
+        ])],
+        properties=["C08", "C02"],
+        note="the meaning of the SELECT/DELETE statements is not proved (bounded stand-in broker_histories)")
+
+    def send_inserts_once(c):
+        ins = [e for e in stmts(c) if e["kind"] == "INSERT"]
+        if len(ins) != 1 or ins[0]["table"] != QUEUE or len(ins[0]["params"]) != 1 or not isinstance(ins[0]["params"][0], Val):
+            return T(False)
+        committed = any(e.get("ev") == "commit" for e in all_events(c.st))
+        others = [e for e in stmts(c) if e["kind"] in ("DELETE", "UPDATE")]
+        return z3.And(T(committed and not others), ins[0]["params"][0].term == c.arg("invocation_id"),
+                      T(ins[0]["info"]["columns"][0] == "invocation_id"))
+    send = Contract(
+        key=f"{SB}:SQLiteBroker.send_message", shape="SQLiteBroker", params={"invocation_id": ID}, frame=[],
+        cases=[Case("insert-one", ensures=[("exactly-one-INSERT-of-the-given-id-committed", send_inserts_once)])],
+        properties=["C08"])
+    for c in (retrieve, send):
+        reg.add(c)
+    return [retrieve, send]
+
+
 def lemmas(reg, ctx):
     return []
